@@ -334,7 +334,49 @@ def oracle_reference(arg, out):
     return None
 
 # ----------------------------------------------------------------------------------------
-PROBE_RE = re.compile(r'^<([^:>]*):(-?\d+):([^:>]*):(-?\d+):([^:>]*)>$')
+PROBE_RE = re.compile(r'^<([^:>]*):(-?\d+):([^:>]*):(-?\d+):([^:>]*):([01]):([01]):\[([^\]>]*)\]>$')
+
+def parse_probe_bib(text):
+    """the generated probe database (one entry per line: @type{key, name = value, ...}; value = {balanced} | "..." |
+    macro [# value]): key -> {field: value as BibTeX reads it}; the only macro is emp = ""; white space is normalised"""
+    db = {}
+    for line in text.split('\n'):
+        m = re.match(r'@(\w+)\{(\w+)\s*(.*)\}\s*$', line)
+        if not m:
+            continue
+        rest, fields, i = m.group(3), {}, 0
+        while i < len(rest):
+            fm = re.match(r'[,\s]*(\w+)\s*=\s*', rest[i:])
+            if not fm:
+                break
+            i += fm.end(); name = fm.group(1).lower(); val = ''
+            while True:
+                if rest[i] == '{':
+                    d, j = 1, i + 1
+                    while d:
+                        d += {'{': 1, '}': -1}.get(rest[j], 0); j += 1
+                    val += rest[i + 1:j - 1]; i = j
+                elif rest[i] == '"':
+                    j = rest.index('"', i + 1); val += rest[i + 1:j]; i = j + 1
+                else:
+                    wm = re.match(r'\w+', rest[i:]); i += wm.end()      # the macro emp
+                hm = re.match(r'\s*#\s*', rest[i:])
+                if not hm:
+                    break
+                i += hm.end()
+            fields[name] = ' '.join(val.split())
+        db[m.group(2).lower()] = fields
+    return db
+
+def probe_note(db, key):
+    """None = missing.  A field the entry defines itself always wins, however empty (C14's rule); otherwise the
+    cross-referenced entry's field is inherited"""
+    e = db.get(key.lower(), {})
+    if 'note' in e:
+        return e['note']
+    if 'crossref' in e:
+        return db.get(e['crossref'].lower(), {}).get('note')
+    return None
 _PROBE_SHAPES = None
 def is_probe(cmds):
     """exactly a program of c03_gen.order_probe (so that shrinking cannot turn it into something else)"""
@@ -366,6 +408,7 @@ def oracle_probe(arg, out, with_default):
         return 'the probe program failed (%s)' % ('BibTeX error' if out[0] == 1 else 'Python exception' if out[0] == 2 else 'does not end')
     types = dict((m.group(2).lower(), m.group(1).lower()) for m in re.finditer(r'@(\w+)\{(\w+)', S(arg[2])))
     tag_of = {'misc': '[M]', 'book': '[B]'}
+    db = parse_probe_bib(S(arg[2]))
     text = S(out[1][0])
     blocks, cur = [], None
     pending = None
@@ -383,6 +426,12 @@ def oracle_probe(arg, out, with_default):
             if not m or cur is None:
                 return 'unexpected output line %r' % line
             cur.append((m.group(1), int(m.group(2)), m.group(3), int(m.group(4)), m.group(5)))
+            want = probe_note(db, m.group(1))
+            got = (int(m.group(6)), int(m.group(7)), m.group(8))
+            exp = (1, 1, '') if want is None else (0, int(want.strip() == ''), want)
+            if got != exp:
+                return ('entry %s: the note field is %s, so missing$ / empty$ / the field itself should give %r, gave %r'
+                        % (m.group(1), 'absent' if want is None else 'present with value %r' % want, exp, got))
             t = types.get(m.group(1).lower())
             if t is None:
                 return 'cite$ gave %r, which is not in the database' % m.group(1)
